@@ -393,6 +393,50 @@ func programs(r *vf.Run) []program {
 	for _, sd := range []struct{ name, text string }{{"custom-unmarshalers", grammar.CustomSpec}, {"order-sensitive-shapes", grammar.ShapesSpec}, {"component-references", grammar.RefsSpec},
 		{"recursive-defaults", grammar.RecursiveDefaultsSpec}, {"recursive-oddity-1", grammar.RecursiveOddities[0]}, {"reference-cycles", grammar.CyclesSpec},
 		{"odd-enum-values-and-custom-security", grammar.Oddities[1]}, {"repeated-inline-constructs", grammar.RepeatsSpec}} { // Oddities[0] is only generated (C11): its Go types nest by value 2^40 deep, which is the compiler's problem
+		// the same document with every path item (that has no path parameter) turned into a webhook and
+		// no path operations left: passes that run "once per document" are easily hung on the path
+		// operations and then skipped (a seeded early return left recursive types of a webhooks-only
+		// document unbroken)
+		var asWebhooks []byte
+		{
+			var d M
+			if json.Unmarshal([]byte(sd.text), &d) == nil {
+				hooks, _ := d["webhooks"].(M)
+				if hooks == nil {
+					hooks = M{}
+				}
+				if paths, ok := d["paths"].(M); ok {
+					for p, item := range paths {
+						if !strings.Contains(p, "{") {
+							if im, ok := item.(M); ok && im["$ref"] == nil {
+								for _, o := range im {
+									if om, ok := o.(M); ok {
+										delete(om, "security") // security on webhooks: recorded finding, fixtures of its own
+									}
+								}
+								hooks["hook"+strings.NewReplacer("/", "_", "-", "_").Replace(p)] = item
+							}
+						}
+					}
+				}
+				if len(hooks) > 0 {
+					d["webhooks"], d["paths"], d["openapi"] = hooks, M{}, "3.1.0"
+					delete(d, "security")
+					asWebhooks, _ = json.Marshal(d)
+				}
+			}
+		}
+		if asWebhooks != nil {
+			sd := sd
+			ps = append(ps, program{ID: "y_" + strings.ReplaceAll(sd.name, "-", "_") + "_webhooks_only", Group: "synthetic", Spec: asWebhooks,
+				Attrs: map[string]string{"synthetic": sd.name, "convenient_errors": "", "layout": "webhooks-only"}, Desc: M{"synthetic_document": sd.name, "layout": "every path item as a webhook, no path operations"},
+				Opts: func() gen.Options {
+					o := featureOpts(hostileFeatures, "")()
+					o.Parser.InferSchemaType = true
+					o.Generator.IgnoreNotImplemented = []string{"all"}
+					return o
+				}})
+		}
 		for _, ce := range []string{"on", "off"} {
 			sd, ce := sd, ce
 			ps = append(ps, program{ID: "y_" + strings.ReplaceAll(sd.name, "-", "_") + "_" + ce, Group: "synthetic", Spec: []byte(sd.text), Tests: true,
